@@ -21,6 +21,7 @@ class TranslateError(Exception):
 
 INT, FLOAT, BOOL, ARR, INTLIST, IDL, IDLLIST, BOOLLIST = "Z", "Q", "bool", "(list Q)", "(list Z)", "idl", "(list idl)", "(list bool)"
 STR, STRLIST, DICT = "string", "(list string)", "(list (string * Q))"
+YVAL, YLIST = "Y", "(list Y)"      # the first entry of a timeslice (what Corr.fit hands to least_squares), abstract
 SCAL = "S"      # a scalar operand of a correlator operation (number or observable; abstract)
 ELT, OPTELT, CONTENT = "E", "(option E)", "(list (option E))"      # timeslice entries of a correlator (abstract element type E)
 VEC, VECLIST, MATX, PERMLIST = "V", "(list V)", "M", "(list (list Z))"      # eigenvectors / reference matrix of _sort_vectors (abstract)
@@ -294,6 +295,10 @@ class Fn:
             return "(ens_of %s)" % t, STR
         t, ty = self.expr(node.value, env, binds)
         sl = node.slice
+        if ty == OPTELT and isinstance(sl, ast.Constant) and sl.value == 0:
+            r = self.fresh()
+            binds.append((r, "py_eun efirst %s" % t))
+            return r, YVAL
         if ty == DICTL and not isinstance(sl, ast.Slice):
             i, ti = self.expr(sl, env, binds)
             if ti != STR:
@@ -366,19 +371,35 @@ class Fn:
         xs, tx = self.iterable(g.iter, env, binds)
         x = g.target.id
         if g.ifs:
-            # [x for x in xs if cond]: a filter (the condition must not be able to raise)
-            if len(g.ifs) != 1 or not (isinstance(node.elt, ast.Name) and node.elt.id == x):
+            # [e for x in xs if cond]: a filter, then a map; the condition is evaluated first, for every x, in order
+            if len(g.ifs) != 1:
                 raise TranslateError("%s: filtering comprehension shape" % self.name)
             envf = dict(env)
             envf[x] = tx
             bf = []
             c, tc = self.expr(g.ifs[0], envf, bf)
-            if bf or tc != BOOL:
-                raise TranslateError("%s: filter condition that can raise / is not boolean" % self.name)
+            if tc != BOOL:
+                raise TranslateError("%s: filter condition is not boolean" % self.name)
             out = {STR: STRLIST, INT: INTLIST}.get(tx)
             if out is None:
                 raise TranslateError("%s: filter over %s" % (self.name, tx))
-            return "(filter (fun %s => %s) %s)" % (self.v(x), c, xs), out
+            plain = isinstance(node.elt, ast.Name) and node.elt.id == x
+            if not bf and plain:
+                return "(filter (fun %s => %s) %s)" % (self.v(x), c, xs), out
+            # NOTE python interleaves condition and element per x; with a condition that guards the element (as here) the two orders
+            # raise in the same cases, the first exception being the one of the smallest x
+            kept = self.fresh()
+            binds.append((kept, "py_filter (fun %s => %s) %s" % (self.v(x), self.seq(bf, "(Ok %s)" % c), xs)))
+            if plain:
+                return kept, out
+            be = []
+            e, te = self.expr(node.elt, envf, be)
+            oute = {FLOAT: ARR, INT: INTLIST, BOOL: BOOLLIST, VEC: VECLIST, ARR: MAT2, YVAL: YLIST}.get(te)
+            if oute is None:
+                raise TranslateError("%s: filtering comprehension producing %s" % (self.name, te))
+            r = self.fresh()
+            binds.append((r, "py_map (fun %s => %s) %s" % (self.v(x), self.seq(be, "(Ok %s)" % e), kept)))
+            return r, oute
         env2 = dict(env)
         env2[x] = tx
         b = []
@@ -624,9 +645,9 @@ class Fn:
             return r, ARR
         if dotted == "np.array" and len(node.args) == 1:
             t, ty = self.expr(node.args[0], env, binds)
-            if ty != ARR:
+            if ty not in (ARR, INTLIST, YLIST):
                 raise TranslateError("%s: np.array(%s)" % (self.name, ty))
-            return t, ARR
+            return t, ty
         if dotted == "np.min" and len(node.args) == 1 and isinstance(node.args[0], ast.Call) and len(node.args[0].args) == 1 \
                 and isinstance(node.args[0].func, ast.Attribute) and node.args[0].func.attr == "diff" \
                 and isinstance(node.args[0].func.value, ast.Name) and node.args[0].func.value.id == "np":
@@ -1332,6 +1353,26 @@ def frag_corr_corr_branch(fn):
     return first.body
 
 
+def _fit_assign(fn, name):
+    import copy
+    hits = [st for st in fn.body if isinstance(st, ast.Assign) and len(st.targets) == 1 and isinstance(st.targets[0], ast.Name) and st.targets[0].id == name]
+    if len(hits) != 1:
+        raise TranslateError("Corr.fit: %s is not assigned exactly once at the top level" % name)
+    call = [st for st in fn.body if isinstance(st, ast.Assign) and isinstance(st.value, ast.Call) and isinstance(st.value.func, ast.Name)
+            and st.value.func.id == "least_squares"]
+    if len(call) != 1 or [_d(a) for a in call[0].value.args[:2]] != [_d(ast.parse("xs", mode="eval").body), _d(ast.parse("ys", mode="eval").body)]:
+        raise TranslateError("Corr.fit: least_squares is not called as least_squares(xs, ys, ...)")
+    return [ast.Return(value=copy.deepcopy(hits[0].value))]
+
+
+def frag_fit_xs(fn):
+    return _fit_assign(fn, "xs")
+
+
+def frag_fit_ys(fn):
+    return _fit_assign(fn, "ys")
+
+
 def frag_corr_scalar_branch(fn):
     """The body of the `elif isinstance(y, (Obs, int, float, CObs, complex)):` branch of a binary operator of Corr."""
     first = [st for st in fn.body if not (isinstance(st, ast.Expr) and isinstance(st.value, ast.Constant))][0]
@@ -1379,6 +1420,10 @@ CORR_SIGS = [
          extra_params=[("v_content", CONTENT), ("v_N", INT), ("v_y", SCAL)], env={"y": SCAL}, aliases=_CORR_ALIASES, hints={"newcontent": CONTENT}, **_CORR),
     dict(coq="corr_mul_scalar", py="Corr.__mul__", fragment=frag_corr_scalar_branch, params=[], ret=CONTENT,
          extra_params=[("v_content", CONTENT), ("v_N", INT), ("v_y", SCAL)], env={"y": SCAL}, aliases=_CORR_ALIASES, hints={"newcontent": CONTENT}, **_CORR),
+    dict(coq="corr_fit_xs", py="Corr.fit", fragment=frag_fit_xs, params=[], ret=INTLIST,
+         extra_params=[("v_content", CONTENT), ("v_fitrange", INTLIST)], env={"fitrange": INTLIST}, aliases=_CORR_ALIASES, **_CORR),
+    dict(coq="corr_fit_ys", py="Corr.fit", fragment=frag_fit_ys, params=[], ret=YLIST,
+         extra_params=[("v_content", CONTENT), ("v_fitrange", INTLIST)], env={"fitrange": INTLIST}, aliases=_CORR_ALIASES, **_CORR),
     dict(coq="corr_mul_corr", py="Corr.__mul__", fragment=frag_corr_corr_branch, params=[], ret=CONTENT,
          extra_params=[("v_content", CONTENT), ("v_N", INT), ("v_ycontent", CONTENT), ("v_yN", INT)], aliases=_CORR_ALIASES, hints={"newcontent": CONTENT}, **_CORR),
 ]
@@ -1391,7 +1436,7 @@ SORT_SIGS = [
 SECTION_HEADERS = {
     "sortvec": ["Section SortVec.", "Variables V M : Type.", "Variable rowset : M -> Z -> V -> M.", "Variable absdet : M -> Q."],
     "corr": ["Section CorrOps.", "Variables E S : Type.", "Variables eadd esub emul ediv : E -> E -> E.", "Variable escale : Q -> E -> E.",
-             "Variables eaddS emulS edivS : E -> S -> E."],
+             "Variables eaddS emulS edivS : E -> S -> E.", "Variable Y : Type.", "Variable efirst : E -> Y."],
 }
 
 
